@@ -23,6 +23,7 @@ ASSUMPTIONS = ["coefficient functions and the SDE drift are evaluated through th
 REQUIRED_COUNTERS = ["single_paths", "coupled_paths", "constant_closed_form", "diagonal_closed_form", "df_meshes", "epsilon_checks",
                      "copula_driver_cases", "libor_copula_driver_cases"]
 MIN_NONTRIVIAL = {"quick": 40, "thorough": 500}
+THOROUGH_ROUNDS = 3      # the thorough tier runs the generators this many times (different seeds)
 SHARD_TIMEOUT = {"quick": 900, "thorough": 7200}
 
 
